@@ -43,6 +43,9 @@ var cur atomic.Pointer[string]
 
 // parseOne: the parser on src as a TICKscript and as a lambda; returns whether the script form was accepted.
 func parseOne(src string, t *tally, bad *[]string) (ok bool) {
+	if hung.Load() {
+		return false
+	}
 	t.n++
 	cur.Store(&src)
 	setCur(src)
@@ -64,20 +67,76 @@ func parseOne(src string, t *tally, bad *[]string) (ok bool) {
 	return err == nil
 }
 
+// hung is set once a parse did not come back: the goroutine that runs it cannot be stopped (it may spin and allocate),
+// so the family stops there, reports, and the child process ends - which is what gets rid of the goroutine.
+var hung atomic.Bool
+
 // guarded runs f with a watchdog: a parse that does not come back within the bound is a hang on the input in cur.
 func guarded(t *tally, bad *[]string, f func()) {
+	if hung.Load() {
+		return
+	}
 	done := make(chan struct{})
 	go func() { defer close(done); f() }()
 	select {
 	case <-done:
-	case <-time.After(120 * time.Second):
+	case <-time.After(30 * time.Second):
 		t.hangs++
+		hung.Store(true)
 		s := ""
 		if p := cur.Load(); p != nil {
 			s = *p
 		}
-		*bad = append(*bad, fmt.Sprintf("hang parsing %q", s))
+		*bad = append(*bad, fmt.Sprintf("hang parsing %q (no answer for 30 s; a parse of a string this short takes microseconds)", s))
 	}
+}
+
+// rune alphabet: whole characters of every UTF-8 width next to the bytes that switch lexer states
+var runeAlphabet = []string{"/", "\n", " ", "a", "'", "\"", "|", "(", "=", "-", "\\", "é", "→", "😀", "1", ")", ".", "~", "!", "\u0301"}
+
+// famRunes: every string of up to 5 (thorough 6) characters over runeAlphabet through the parser entry points.
+func famRunes(r *rt.Run, env *rt.Env, emit emitFn) {
+	maxLen := 5
+	alpha := runeAlphabet[:14] // quick: 14^5 strings; thorough: all 20 characters
+	if r.Thorough() {
+		alpha = runeAlphabet
+	}
+	runeAlphabet := alpha
+	for length := 1; length <= maxLen; length++ {
+		for fi, first := range runeAlphabet {
+			var t tally
+			var bad []string
+			guarded(&t, &bad, func() {
+				idx := make([]int, length)
+				idx[0] = fi
+				for {
+					var sb strings.Builder
+					for _, k := range idx {
+						sb.WriteString(runeAlphabet[k])
+					}
+					parseOne(sb.String(), &t, &bad)
+					p := length - 1
+					for p >= 1 {
+						idx[p]++
+						if idx[p] < len(runeAlphabet) {
+							break
+						}
+						idx[p] = 0
+						p--
+					}
+					if p < 1 {
+						break
+					}
+				}
+			})
+			emit("runes", length, fmt.Sprintf("%q", first), t, bad)
+			if hung.Load() {
+				return
+			}
+		}
+	}
+	r.Extra["rune_alphabet"] = len(runeAlphabet)
+	r.Extra["rune_len"] = maxLen
 }
 
 // byteEach: every byte string of the given length starting with first, between pre and suf, through the parser
